@@ -299,7 +299,7 @@ func (w *joeWorld) newMessage(topics []string) *pubMsg {
 	m := &sse.Message{}
 	m.AppendData(tag)
 	wantID := w.repKind != 0 && !w.auto
-	if w.repKind != 0 && w.rc.Prop != "C04" && w.ch.Chance(1, 10, "message the replayer rejects") {
+	if w.repKind != 0 && w.ch.Chance(1, 10, "message the replayer rejects") {
 		// wrong ID presence for the real replayer: Put returns an error, Publish must
 		// return it and the message must still be delivered live (C17)
 		wantID = !wantID
@@ -430,6 +430,8 @@ func (w *joeWorld) generate() {
 				s.sub.FailSendAt = ch.Range(1, 3, "failing send")
 			}
 			s.selfCancel = ch.Chance(1, 2, "failing call cancels own context")
+			s.sub.Sticky = ch.Chance(3, 4, "a broken subscriber stays broken")
+			s.sub.FlushOnly = s.sub.FailFlushAt > 0 && ch.Chance(1, 2, "only flushes keep failing")
 		}
 		s.sub.OnCall = w.onSubCall(s)
 		w.subs = append(w.subs, s)
